@@ -96,7 +96,7 @@ package fingerprint
 //@ func (*TimestampChecker).OnError
 //@   modifies heap, fs_exists, fs_ver
 //@   preserves $RUNDATA
-//@   ensures result == nil && len(t.Sources) != 0 ==> !fs_exists(stampPath(recv, t))                [C04]
+//@   ensures result == nil && len(t.Sources) != 0 ==> !fs_exists(stampPath(checker, t))             [C04]
 
 //@ func NewChecksumChecker
 //@   pure allocates
